@@ -6,6 +6,11 @@ HERE = os.path.dirname(os.path.dirname(os.path.abspath(__file__)))
 
 # id -> (category, technique, level text, level note, design ref)
 CHECKS = {
+ "C13": ("exploration",
+         "property-based testing against a reference constant evaluator",
+         "Random constant expression trees (depth 5, boundary operands in every scalar type, untyped literals, enum values, casts, sizeof) are evaluated by the compiler - the value is read from the diagnostic of a failing assert_eval and from the emitted HLSL for static const / const local / array size / enum value + successor / case label / template argument / numthreads - and compared (type and value) with a reference evaluator: exact i128 for literals, wrapping 32-bit for int/uint, masked shift counts, C logic, HLSL casts. Declining to fold is allowed; division by zero must be declined; any panic is a violation. 30 000 expressions x up to 17 compilations quick, 1 M thorough.",
+         "Trusted: the reference evaluator and RSSL's operand-typing order as restated in harness/src/c13.rs. Results HLSL leaves open (out-of-range float->int, INT_MIN / -1) are only checked for no abort. half is held in single precision as the compiler does.",
+         "DESIGN.md section 3, C13"),
  "C10": ("exploration",
          "property-based testing: span-tiling invariant, exact u128 integer oracle, correctly-rounded float oracle (Rust str::parse), output round-trip",
          "Random token soups with every trivia kind (comments, CRLF, backslash splices) are lexed and the token spans must tile the input exactly, with separated pieces coming back one token each and error positions inside the file; integer spellings (dec/hex/octal x suffixes, biased to 2^31..2^64+1, up to 25 digits) must carry their exact value or be rejected when >= 2^64; float spellings (<= 20 significant digits, exponents -330..310, every suffix) must have the bits of the correctly rounded double (narrowed once for f/h); each literal compiled into `T f(){return lit;}` must re-read from the emitted HLSL with the same value and type. About 1 M cases quick, 19 M thorough.",
